@@ -200,12 +200,16 @@ class Run:
             m.expire(t, inclusive=False)
             m.apply(t, a)
             self.pos += 1
+        # a deadline one resolution ahead of T to within rounding: run in the iteration that just ended or in the next
+        band = {k for k, d in m.live.items() if d != math.inf and abs(d - (T + RES)) <= RES}
         m.expire(T, inclusive=True)
         latest = {}
         for e in self.events:
             latest[(e[3], e[4])] = e
         keys = set(latest) | set(m.live)
         for key in keys:
+            if key in band:
+                continue
             self.stats["idle_truth_checks"] += 1
             le = latest.get(key)
             said = le is not None and le[2] == "subscribed"
@@ -288,7 +292,7 @@ class Builder:
         if d is None:
             return None
         return {"d-eps": (d - EPS, BEFORE), "d:before": (d, BEFORE), "d:after": (d, AFTER), "d+eps": (d + EPS, BEFORE),
-                "d:after+1": (d, AFTER)}[placement]
+                "d:after+1": (d, AFTER), "d-res": (d - RES / 2, BEFORE)}[placement]
 
     def add(self, action, placement):
         a = dict(action)
@@ -318,10 +322,23 @@ class Builder:
             flag, sid = self.sess[sub].next("m" if a["mc"] else "u")
             a["flag"], a["sid"] = flag, sid
             ents = []
-            for tag, ttl in a["entries"]:
+            pres = a.get("pres") or [0] * len(a["entries"])
+            for (tag, ttl), pv in zip(a["entries"], pres):
                 sidv, iid, maj, _egs = INSTANCES[tag[0]]
                 eps = [endpoint(sub, kk) for kk in tag[3].split("+")] if tag[3] != "none" else []
-                ents.append(net.subscribe(sidv, iid, maj, tag[1], ttl, counter=tag[2], o1=eps))
+                o1, o2 = eps, []
+                if pv:
+                    # the same subscription presented differently on the wire: endpoint options in another order, split
+                    # over the two option runs, non-endpoint options in between - none of it is part of its identity
+                    prng = random.Random(pv)
+                    prng.shuffle(eps)
+                    cut = prng.randrange(len(eps) + 1)
+                    o1, o2 = eps[:cut], eps[cut:]
+                    extra = prng.choice((None, None, refwire.opt_loadbal(1, 2), refwire.opt_config([b"a=1"])))
+                    if extra is not None:
+                        run = prng.choice((o1, o2))
+                        run.insert(prng.randrange(len(run) + 1), extra)
+                ents.append(net.subscribe(sidv, iid, maj, tag[1], ttl, counter=tag[2], o1=o1, o2=o2))
             if a.get("offer_entry"):
                 ents = [net.offer(0x7777, 1, 1, 0, 3)]
             a["data"] = net.sd_bytes(ents, sid, reboot=flag)
@@ -426,6 +443,7 @@ def core_sequences(length, shard, nshards, rng, sample):
 
 TAGS = [("X", eg, c, k) for eg in (1, 2, 3, 4) for c in (0, 1, 15) for k in ("v4", "v6")] + \
        [("Y", 1, c, k) for c in (0, 1) for k in ("v4", "v6")] + [("X", 1, 0, "none"), ("X", 2, 0, "v4+v6")]
+TWO_ENDPOINTS = [("X", 2, 0, "v4+v6"), ("X", 1, 1, "v4+v6"), ("Y", 1, 0, "v4+v6")]
 
 
 def random_history(rng):
@@ -433,6 +451,8 @@ def random_history(rng):
     n = rng.randrange(4, 41)
     seq = []
     hot = rng.sample(TAGS, 4)
+    if rng.random() < 0.5:
+        hot[0] = rng.choice(TWO_ENDPOINTS)
     for _ in range(n):
         r = rng.random()
         if r < 0.62:
@@ -441,7 +461,8 @@ def random_history(rng):
             for _ in range(rng.choice((1, 1, 1, 2, 3))):
                 tag = rng.choice(hot) if rng.random() < 0.75 else rng.choice(TAGS)
                 ents.append((tag, rng.choice((0, 0, 1, 1, 2, 3, FOREVER))))
-            a = dict(kind="msg", sub=sub, mc=rng.random() < 0.08, entries=ents, reboot=rng.random() < 0.12)
+            a = dict(kind="msg", sub=sub, mc=rng.random() < 0.08, entries=ents, reboot=rng.random() < 0.12,
+                     pres=[rng.randrange(1, 1 << 30) if rng.random() < 0.6 else 0 for _ in ents])
         elif r < 0.7:
             a = dict(kind="msg", sub=rng.choice("AB"), mc=rng.random() < 0.4, entries=[], reboot=True, offer_entry=rng.random() < 0.5)
         elif r < 0.82:
@@ -454,7 +475,7 @@ def random_history(rng):
             a = dict(kind="policy", tag=tg, reject=tg not in b.policy)
         else:
             a = dict(kind="msg", sub=rng.choice("AB"), mc=False, entries=[(rng.choice(hot), rng.choice((1, 2)))])
-        pl = rng.choice(("new", "new", "same", "same", "same+1", "same+2", "d-eps", "d:before", "d:after", "d:after+1", "d+eps"))
+        pl = rng.choice(("new", "new", "same", "same", "same+1", "same+2", "d-eps", "d:before", "d:after", "d:after+1", "d+eps", "d-res"))
         if b.add(a, pl):
             seq.append((a["kind"], pl))
     return b, tuple(seq)
@@ -495,6 +516,8 @@ def count_placements(ctx, seq):
             ctx.count("deadline_after_placements")
         elif pl in ("d-eps", "d+eps"):
             ctx.count("adjacent_iteration_placements")
+        elif pl == "d-res":
+            ctx.count("within_resolution_before_deadline_placements")
 
 
 def shards(tier, seed):
